@@ -57,15 +57,43 @@ void HARNESS(void) { VIN(vin_t);
 # ---- 2. producer of HTP_FIELD_REPEATED: per-header bookkeeping --------------------------------------------------
 R2 = ['htp_parse_request_header_generic', 'htp_table_get', 'htp_table_add', 'htp_log', 'bstr_cmp_c_nocase', 'htp_parse_content_length',
       'bstr_expand', 'bstr_add_mem_noex', 'bstr_add_noex']
-UNITS.append(U(name='htp_process_request_header_generic', props=['C11', 'C10', 'C18', 'C01'], kind='contract', src=['htp_request_generic.c'],
+PCASES = (('first', '(g_c11_have_ex == 0)', 'first occurrence of the name'),
+          ('clen', '(g_c11_have_ex == 1 && g_c11_isclen == 0)', 'name already stored and the name is Content-Length'),
+          ('merge', '(g_c11_have_ex == 1 && g_c11_isclen != 0)', 'name already stored, any other name'))
+for _c, _e, _t in PCASES:
+    UNITS.append(U(name='htp_process_request_header_generic_' + _c, props=['C11', 'C10', 'C18', 'C01'], kind='contract', src=['htp_request_generic.c'],
                enforce='htp_process_request_header_generic',
                replace=['%s/contract_c11_%s' % (f, f) for f in R2] + ['bstr_free/contract_c11log_bstr_free'], contracts_inc=INC,
                harness='void HARNESS(void) { htp_connp_t *c; unsigned char *d; size_t n; htp_process_request_header_generic(c, d, n); CANARY(); }',
-               defs={'quick': dict({'C11_VALCAP': 32}, **XD)}, min_obl=60,
-               sub='a second header with the same name sets HTP_FIELD_REPEATED on the STORED header on every path; repetition counter <= 64 and +1 only from the third occurrence; '
+               defs={'quick': dict({'C11_VALCAP': 32, 'C11_PRODUCER_CASE': _e}, **XD)}, min_obl=60,
+               sub='[case: %s] a second header with the same name sets HTP_FIELD_REPEATED on the STORED header on every path; repetition counter <= 64 and +1 only from the third occurrence; '
                    'beyond the cap the newcomer is dropped; Content-Length is never merged; other names: capacity len+2+n, ", " separator, then the new value, len\' = len+2+n; '
-                   'parsed name/value released exactly once unless stored (every allocation failure included)',
-               assumes=['line parser, table lookup/insert, case-insensitive compare, bstr_expand / bstr_add_* and bstr_free replaced by call-logging stubs with arbitrary answers '
-                        '(NULL / HTP_ERROR included); the byte content of the merged value is the bounded unit ref_header_merge on the real bstr code',
+                   'parsed name/value released exactly once unless stored (every allocation failure included)' % _t,
+               assumes=['case split over the answers of the replaced lookup and name compare: the three units first/clen/merge together cover every input (one contract, one C11_PRODUCER_CASE each)',
+                        'line parser, table lookup/insert, case-insensitive compare, bstr_expand / bstr_add_* and bstr_free replaced by call-logging stubs with arbitrary answers '
+                        '(NULL / HTP_ERROR included); the appenders\' stubs require that the capacity suffices (asserted at the call site)',
                         'values are inline bstrs of capacity C11_VALCAP; repetition counter <= 64 on entry (0 in a new transaction, moved only here)',
-                        'release of the header structure itself (free(h)) is checked by CBMC built-in double-free check; its leak freedom is in ref_header_merge (--memory-leak-check)']))
+                        'release of the header structure itself (free(h)): CBMC built-in double-free check only; its leak freedom is not covered']))
+
+# ---- 4. host syntax --------------------------------------------------------------------------------------------
+UNITS.append(U(name='htp_validate_hostname', props=['C11', 'C01'], kind='contract', src=['htp_util.c'], enforce='htp_validate_hostname', contracts_inc=INC,
+               loops={'htp_util.c': {'htp_validate_hostname': {'count': 3,
+                   0: dict(assigns='pos, startpos',
+                           inv=['pos <= len', '(gk < pos) ==> (C11_HOSTCH(data[gk]) || data[gk] == \'.\')', '(pos > 0) ==> (data[0] != \'.\')',
+                                '(gk + 1 < pos) ==> !(data[gk] == \'.\' && data[gk + 1] == \'.\')', '(pos > 0 && pos < len) ==> (data[pos - 1] == \'.\')'],
+                           dec='len - pos'),
+                   1: dict(assigns='pos', inv=['pos <= len', 'startpos <= pos', '(gk >= startpos && gk < pos) ==> C11_HOSTCH(data[gk])'], dec='len - pos'),
+                   2: dict(assigns='pos', inv=['pos <= len', 'startpos <= pos', '(gk >= startpos && gk < pos) ==> (data[gk] == \'.\')'], dec='len - pos')}}},
+               harness='void HARNESS(void) { bstr *h; htp_validate_hostname(h); CANARY(); }',
+               defs={'quick': dict({'VCAP': 300}, **XD), 'thorough': {'VCAP': 1024}}, min_obl=30,
+               sub='relaxed host syntax: empty or > 255 bytes, any byte outside [A-Za-z0-9_-.] (witness over all positions), a leading dot, two dots in a row, '
+                   'an over-long or bracket-only IPv6 literal => 0 (invalid); memory safety and termination for every length',
+               assumes=['inet_pton has no body: the answer for a bracketed literal of acceptable length is unconstrained', 'host string is a read-only bstr of capacity <= VCAP']))
+UNITS.append(U(name='htp_parse_header_hostport', props=['C11', 'C01'], kind='contract', src=['htp_util.c'], enforce='htp_parse_header_hostport', contracts_inc=INC,
+               replace=['htp_parse_hostport/contract_c11s_htp_parse_hostport', 'htp_validate_hostname/contract_c11s_htp_validate_hostname'],
+               harness='void HARNESS(void) { bstr *hp; bstr **h; int *pn; uint64_t *f; htp_parse_header_hostport(hp, h, NULL, pn, f); CANARY(); }',
+               defs={'quick': dict({}, **XD)}, min_obl=20,
+               sub='Host field: any syntactic defect reported by the authority parser, a host name that fails validation, or no host name at all raises HTP_HOSTH_INVALID; '
+                   'only that bit is touched, never cleared; a clean value leaves the flags alone',
+               assumes=['htp_parse_hostport and htp_validate_hostname replaced by stubs with arbitrary answers; the stub of htp_parse_hostport promises "no host name => invalid" '
+                        '(read off the code: every path that leaves *hostname NULL with HTP_OK sets *invalid = 1; NOT enforced by a unit of its own)']))
